@@ -106,6 +106,21 @@ func toFmtShape(v *Val, reg map[string]bool) (forFmt, forRedact interface{}) {
 			a[ka], b[kb] = va, vb
 		}
 		return a, b
+	case "rvslot":
+		// a reflect.Value operand stands for the value it holds, whether it was
+		// made from the value or designates an interface-typed slot holding it
+		a, b := toFmtShape(v.Sub[0], reg)
+		switch v.I {
+		case 0:
+			return a, reflect.ValueOf(b)
+		case 1:
+			x := b
+			return a, reflect.ValueOf(&x).Elem()
+		case 2:
+			return a, reflect.ValueOf([]interface{}{b}).Index(0)
+		default:
+			return a, reflect.ValueOf(StructI{A: b}).Field(0)
+		}
 	case "safefmt":
 		segs, _ := modelOps(v.Ops, 0)
 		return sfStandIn{segs: segs}, newSafeFmtV(v.Ops, 0)
